@@ -181,6 +181,9 @@ pub enum TyperError {
     /// Struct members do not support default values
     StructMemberUnsupportedDefaultValue(SourceLocation),
 
+    /// A struct inherits from a struct with methods which is not implemented
+    StructBaseTypeHasMethods(SourceLocation),
+
     /// A short circuiting operator received a non-scalar expression
     ShortCircuitingVector(SourceLocation),
 
@@ -931,6 +934,11 @@ impl CompileError for TyperExternalError {
             ),
             TyperError::IllegalStructBaseType(loc) => w.write_message(
                 &|f| write!(f, "base type must name a struct"),
+                *loc,
+                Severity::Error,
+            ),
+            TyperError::StructBaseTypeHasMethods(loc) => w.write_message(
+                &|f| write!(f, "base types with methods are not supported"),
                 *loc,
                 Severity::Error,
             ),
